@@ -5,7 +5,7 @@ import vlib, seq
 
 TAGS = {"calls", "ret", "verdict", "probe"}
 
-BASE = ["rp", "rpH", "rpA", "rpL", "cbA", "cbB", "rl2", "bh1", "fbR", "fbE", "fbH", "cK", "cIf", "to", "hg", "hgR"]
+BASE = ["rp", "rp0", "rpH", "rpA", "rpL", "cbA", "cbX", "rl2", "bh1", "fbR", "fbE", "fbX", "cK", "cIf", "to", "hg", "hgR"]
 
 
 def run(ctx):
